@@ -1,0 +1,35 @@
+//go:build verif
+// +build verif
+
+// Package verifhook: observation / yield / crash points for the verification harness
+// (/verif/harness). With the build tag off every function is an empty inlinable stub.
+package verifhook
+
+import "sync/atomic"
+
+var handler atomic.Value // func(name, key string)
+var clock atomic.Value   // func() int64
+
+type pointFn struct{ f func(name, key string) }
+type clockFn struct{ f func() int64 }
+
+// SetHandler installs the function called at every Point (nil removes it).
+func SetHandler(f func(name, key string)) { handler.Store(pointFn{f}) }
+
+// SetClock installs the wall clock used where the code calls time.Now() for entry times.
+func SetClock(f func() int64) { clock.Store(clockFn{f}) }
+
+// Point is a named place in the code; key identifies the cache entry concerned ("" if none).
+func Point(name, key string) {
+	if h, ok := handler.Load().(pointFn); ok && h.f != nil {
+		h.f(name, key)
+	}
+}
+
+// Clock returns the injected wall clock (seconds), if one is installed.
+func Clock() (int64, bool) {
+	if c, ok := clock.Load().(clockFn); ok && c.f != nil {
+		return c.f(), true
+	}
+	return 0, false
+}
